@@ -18,6 +18,7 @@ META = {
     'not_decided': ['which branch runs for which run-time value; iteration counts'],
 }
 META['explanation'] += ' R11.9 the jump placeholder is only written, never read back. R11.10 every statement of a block, branch and loop body is compiled.'
+META['explanation'] += ' R11.11 `anders als` chains nest each further `als` inside the alternative of the one before, so the conditions are tested in the order written.'
 COMPILER = 'compiler::Compiler'
 
 
